@@ -100,7 +100,7 @@ def run_env(spec, rec, lib):
     cfg = spec.get("config", "default")
     for i in range(spec["count"]):
         r0 = rng.random()
-        stratum = "accept" if r0 < 0.75 else ("many_signers" if r0 < 0.83 else "mixed")
+        stratum = "accept" if r0 < 0.73 else ("many_signers" if r0 < 0.81 else ("crowded" if r0 < 0.84 else "mixed"))
         case = envelope.gen_case(rng, stratum=stratum)
         # completeness needs junk: force some
         if rng.random() < 0.6:
